@@ -103,3 +103,11 @@ package node
 //@   loop 1 header "for _, ns := range nodeScores"
 //@   loop 1 invariant len(nodes) == $idx + 1 && (forall k in 0..$idx+1 :: nodes[k] == nodeScores[k].Node && nodeScores[k].Score >= minScore)
 //@   loop 1 invariant forall k in 0..$idx+1 :: nodeScores[k].Node == n ==> inTop
+
+// ---------------------------------------------------------------- pool membership (used by the miner contract's view change, C38)
+// HasNode is membership in the pool's node map and changes nothing.
+//@ func (*Pool).HasNode
+//@   prop C38
+//@   ensures[is-map-membership] ok == (key in np.NodesMap)
+//@   lock-balanced np.mmx
+//@   modifies nothing
